@@ -48,10 +48,17 @@ func c02IsDoc(src string) bool {
 	return strings.Contains(l, "<html") || strings.Contains(l, "<!doctype")
 }
 
+// c02NoScript: the case under test contains <noscript> (set per case; workers are single-threaded)
+var c02NoScript bool
+
 func c02Norm(src string) []htmlcmp.El { return c02NormAs(src, c02IsDoc(src)) }
 
 func c02NormAs(src string, doc bool) []htmlcmp.El {
 	nodes := htmlcmp.ParseFragment(src)
+	if c02NoScript {
+		// <noscript> content only matters to clients without scripting: they read it as markup
+		nodes = htmlcmp.ParseFragmentNoScript(src)
+	}
 	if doc {
 		nodes = htmlcmp.ParseDocument(src)
 	}
@@ -68,6 +75,9 @@ func c02NormAs(src string, doc bool) []htmlcmp.El {
 // c02Stable: the HTML5 parser's own serialisation re-parses to the same tree.
 func c02Stable(src string) bool {
 	nodes := htmlcmp.ParseFragment(src)
+	if c02NoScript {
+		nodes = htmlcmp.ParseFragmentNoScript(src)
+	}
 	if c02IsDoc(src) {
 		nodes = htmlcmp.ParseDocument(src)
 	}
@@ -155,6 +165,8 @@ var c02ValueNames = []string{"word", "amp", "lt", "tag", "dq", "sq", "ent", "lea
 func (c *c02Case) Run(ctx *core.Ctx) {
 	switch c.Part {
 	case "structure", "attr", "text", "doc":
+		c02NoScript = strings.Contains(c.Src, "<noscript") && !c02IsDoc(c.Src)
+		defer func() { c02NoScript = false }()
 		if !c02Stable(c.Src) {
 			ctx.Zone("not-parser-stable")
 			return
@@ -384,6 +396,7 @@ func c02Enumerate(tier string, emit func(core.Case)) {
 	// script / style inside <pre> are still raw text
 	for _, src := range []string{
 		`<svg><style>.a &gt; .b{} &amp; c</style></svg>`, `<svg><script>if (a &lt; b) x</script></svg>`, `<math><style>a &lt; b</style></math>`, `<svg><style>p{}</style><g><style>q &gt; r</style><circle r="1"></circle></g></svg>`,
+		`<noscript><img src="x"></noscript>`, `<div><noscript><p>a &amp; b</p><a href="/nojs?a=1&amp;b=2">l</a></noscript></div>`, `<noscript>plain &lt;text&gt;</noscript>`,
 		`<pre><script>if (a<b) x</script></pre>`, `<pre><style>p > q {}</style></pre>`, `<div><pre>a <script>var s = "<b>";</script> b</pre></div>`,
 	} {
 		emit(&c02Case{Part: "text", Src: src})
